@@ -31,12 +31,148 @@ def target_doc(op):
     return None
 
 
+
+# ---- the object graph, against coq/theories/Alias.v (theorems C12_no_shared_object, C12_object_frame) -------------------
+def _closure(d):
+    """ids of every mutable object a document owns, by sort: managers with their tables, records with their attribute
+    dictionary and value sets, containers with their record list and identifier map"""
+    ids = set()
+    for c in [d] + list(d._bundles.values()):
+        m = c._namespaces
+        ids |= {id(c), id(c._records), id(c._id_map), id(m), id(m._namespaces), id(m._uri_map), id(m._rename_map),
+                id(m._prefix_renamed_map)}
+        ids |= {id(v) for v in c._id_map.values()}
+        for r in c._records:
+            ids |= {id(r), id(r._attributes)} | {id(v) for v in r._attributes.values()}
+    ids.add(id(d._bundles))
+    return ids
+
+
+def impl_shapes(docs):
+    out, closures = [], []
+    for i, d in enumerate(docs):
+        subs = list(d._bundles.values())
+        same = next(j for j, e in enumerate(docs) if e is d)
+        stray = sum(1 for c in [d] + subs for r in c._records if r._bundle is not c)
+        stray += sum(1 for b in subs if b._namespaces.parent is not d._namespaces)
+        cl = _closure(d)
+        shared = [0 if docs[j] is d else len(cl & closures[j]) for j in range(i)]
+        closures.append(cl)
+        out.append([same, 1 + len(subs), len(d._records) + sum(len(b._records) for b in subs), 1 + len(subs),
+                    [len(d._records)] + [len(b._records) for b in subs], stray, shared])
+    return out
+
+
+def _cref(c):
+    return (int(c[1]), "none") if c[0] == "d" else (int(c[1]), int(c[2]))
+
+
+NOOP = ["TouchNs", "99999", "none"]          # a call on a handle that does not exist: the model's world stays as it is
+
+
+def alias_op(im, op, ob, pre_counts, pre_match):
+    """the call of Alias.v that stands for the library call just made (None: this program cannot be followed further)"""
+    k = op[0]
+    failed = ob == "bad-handle" or (isinstance(ob, list) and ob and ob[0] == "raise")
+    if k == "NewDoc":
+        return ["NewDoc"]
+    if k == "NewBundle":
+        return NOOP if failed else ["NewBundle", op[1]]
+    if k in ("NewRecord", "Factory", "AddRecord", "ElemMethod"):
+        i, s = _cref(op[1][1] if k == "ElemMethod" else op[1])
+        try:
+            c = im.cont(op[1][1] if k == "ElemMethod" else op[1])
+        except Exception:
+            return NOOP
+        delta = len(c._records) - pre_counts.get((i, s), 0)
+        return ["AddRecs", str(i), str(s), str(delta)] if delta > 0 else NOOP
+    if k in ("AddAttrs", "SetTime", "AddType"):
+        i, s = _cref(op[1][1])
+        return ["TouchRec", str(i), str(s), str(op[1][2])]
+    if k in ("AddNs", "SetDefault", "Resolve", "GetRecord"):
+        i, s = _cref(op[1])
+        return ["TouchNs", str(i), str(s)]
+    if k == "Update":
+        if failed:
+            return "check-unchanged"
+        (i, s), (j, t) = _cref(op[1]), _cref(op[2])
+        if s == "none" and t == "none":
+            return ["Update", str(i), str(j), ["none" if m is None else str(m) for m in pre_match]]
+        return ["UpdateBundle", str(i), str(s), str(j), str(t)]
+    if k == "AddBundleDoc":
+        return NOOP if failed else ["AddBundleDoc", op[1], op[2]]
+    if k == "Flattened":
+        return NOOP if failed else ["Flattened", op[1]]
+    if k in ("Unified", "LoadJson", "GraphRoundTrip"):
+        if failed:
+            return NOOP
+        nd = im.docs[-1]
+        counts = [str(len(nd._records)), [str(len(b._records)) for b in nd._bundles.values()]]
+        return (["Unified", op[1]] if k == "Unified" else ["Build"]) + counts
+    if k == "DocFromRecords":
+        if failed:
+            return NOOP
+        i, s = _cref(op[1])
+        return ["DocFromRecs", str(i), str(s)]
+    return NOOP                                 # exporters, comparisons, look-ups: nothing is allocated, nothing linked
+
 class C12Oracle(worldprop.Oracle):
     def before(self, idx, op):
         self.pre = [observable_doc(d) for d in self.im.docs]
         self.ids = [id(d) for d in self.im.docs]
+        if not hasattr(self, "alias_ops"):
+            self.alias_ops, self.alias_shapes, self.alias_idx, self.alias_dead = [], [], [], False
+        self.pre_counts = {(i, s): len(c._records) for i, d in enumerate(self.im.docs)
+                           for s, c in [("none", d)] + list(enumerate(d._bundles.values()))}
+        self.pre_match = []
+        if op[0] == "Update" and op[1][0] == "d" and op[2][0] == "d":
+            try:
+                tgt, src = self.im.docs[int(op[1][1])], self.im.docs[int(op[2][1])]
+                keys = list(tgt._bundles.keys())
+                self.pre_match = [keys.index(b.identifier) if b.identifier in tgt._bundles else None for b in src._bundles.values()]
+            except Exception:
+                self.pre_match = []
+        self.pre_shapes = impl_shapes(self.im.docs) if op[0] == "Update" else None
+
+    def alias_after(self, idx, op, ob):
+        if self.alias_dead:
+            return
+        try:
+            a = alias_op(self.im, op, ob, self.pre_counts, self.pre_match)
+        except Exception:
+            a = None
+        now = impl_shapes(self.im.docs)
+        if a == "check-unchanged":
+            a = NOOP if now == self.pre_shapes else None
+        if a is None:
+            self.alias_dead = True              # update() that raised half-way: records were added, the rest was not
+            return
+        self.alias_ops.append(a); self.alias_shapes.append(now); self.alias_idx.append(idx)
+
+    def alias_finish(self):
+        """the shapes after every call against the model's (Alias.atrace)"""
+        import os
+        from harness import common
+        from harness.sexp import dumps, loads
+        if not getattr(self, "alias_ops", None) or not os.path.exists(common.DRIVER):
+            return
+        line = common.run_model_batch([dumps(["alias"] + self.alias_ops)])[0]
+        m = loads(line)
+        if not isinstance(m, list) or len(m) != len(self.alias_shapes):
+            self.fail(self.alias_idx[0], "the Alias model did not answer", model=line[:300])
+            return
+        def norm(x):
+            return [norm(y) for y in x] if isinstance(x, list) else int(x)
+        for idx, a, want, got in zip(self.alias_idx, self.alias_ops, self.alias_shapes, m):
+            if norm(got) != want:
+                self.fail(idx, "the object graph differs from the Alias model (C12_no_shared_object / C12_object_frame are "
+                               "stated over it): per handle [same-object index, managers, records, bundles, records per "
+                               "container, stray pointers, objects shared with each earlier handle]",
+                          call=a, implementation=want, model=norm(got))
+                return
 
     def after(self, idx, op, ob):
+        self.alias_after(idx, op, ob)
         try:
             t = target_doc(op)
         except Exception:
@@ -114,6 +250,7 @@ class C12Oracle(worldprop.Oracle):
                 self.fail(idx, "changing the bundle made by add_bundle(document) changed the source document", cls=cls.__name__)
 
     def finish(self, ops):
+        self.alias_finish()
         if len(ops) % 7 == 0:
             self.subclass_documents(len(ops))
         # record.copy(): an equal record that shares no mutable state with its source
@@ -241,7 +378,57 @@ def nontrivial(ops):
     return bool(der) and any(o[0] in MUTATORS for o in ops[der[0] + 1:])
 
 
+def alias_correspondence(tier, seed):
+    """what the object-graph comparison covered (the comparison itself runs inside the oracle, on every program of the
+    check): the fixed programs and a sample of generated ones are followed once more in this process and the calls
+    handed to Alias.atrace are counted by kind"""
+    import random
+    from collections import Counter
+    from harness import progs
+    rng = random.Random(seed * 17 + 3)
+    programs = list(fixed_programs())
+    for i in range(60 if tier == "quick" else 600):
+        g = progs.Gen(random.Random(rng.randrange(1 << 60)), rng.choice(["merge", "mixed"]))
+        g.observe_each = False
+        try:
+            g.run(rng.randrange(6, 24))
+            post(g)
+        except Exception:
+            continue
+        programs.append(g.ops)
+    hist, n_prog, n_calls, dead, bad = Counter(), 0, 0, 0, []
+    for ops in programs:
+        o = C12Oracle()
+        try:
+            for idx, op in enumerate(ops):
+                if op[0] == "ObserveAll":
+                    continue
+                o.before(idx, op)
+                ob = o.im.step(op)
+                o.alias_after(idx, op, ob)
+            o.alias_finish()
+        except Exception:
+            continue
+        n_prog += 1
+        n_calls += len(getattr(o, "alias_ops", []))
+        dead += 1 if getattr(o, "alias_dead", False) else 0
+        for a in getattr(o, "alias_ops", []):
+            hist["no-op (exporter, look-up, refused call)" if a is NOOP else a[0]] += 1
+        bad.extend({"kind": "failing-input", "failure": f, "program": ops} for f in o.fails[:1])
+    return {"programs": n_prog, "calls_compared": n_calls, "abandoned_after_half_done_update": dead, "calls_by_kind": dict(hist)}, bad
+
+
 def run(tier, seed, log, model_runs=True, enlarged=False):
+    res = _run(tier, seed, log, model_runs, enlarged)
+    if model_runs:
+        cov, bad = alias_correspondence(tier, seed)
+        res["coverage"]["distribution"]["object_graph_vs_Alias_model"] = cov
+        res["violations"].extend(bad[:2])
+        log("object graph against Alias.v: %d programs, %d calls compared" % (cov["programs"], cov["calls_compared"]))
+    return res
+
+
+def _run(tier, seed, log, model_runs=True, enlarged=False):
     return worldprop.run(PROP, tier, seed, log, model_runs, enlarged, C12Oracle, ["merge", "mixed"],
                          n_quick=200, n_thorough=3000, post=post, nontrivial=nontrivial,
                          ops_range_quick=(6, 20), ops_range_thorough=(8, 40),
@@ -251,9 +438,13 @@ def run(tier, seed, log, model_runs=True, enlarged=False):
                                    "call the strict content, record order, registered namespaces and default namespace of every "
                                    "document other than the call's target must be unchanged, derived documents must consist "
                                    "of new objects, and no two record objects may share their attribute dictionary or a value set; at the end sampled records are copied with record.copy() and the copy is changed under existing and "
-                                   "new attribute names; non-trivial = a deriving call followed by a mutator",
+                                   "new attribute names; after every call the object graph of every document (managers with their tables, records with "
+                                   "their attribute dictionaries and value sets, containers, by id()) is compared with the one the Alias model "
+                                   "(coq/theories/Alias.v, over which C12_no_shared_object and C12_object_frame are proved) builds for the same calls: "
+                                   "objects per sort, records per container, stray _bundle / parent pointers, objects shared between handles; "
+                                   "non-trivial = a deriving call followed by a mutator",
                          extra_cases=fixed_programs(),
-                         theorem_note="C12_frame over Interp.step")
+                         theorem_note="C12_frame over Interp.step; C12_no_shared_object, C12_object_frame over Alias.astep")
 
 
 def replay(path, log):
